@@ -387,7 +387,8 @@ def s_eval(s, ctx, dt=0, di=0):
                 raise ExpectKeyError()
             src = st[("ts%d" if t else "it%d") % idx]
             return ("vec", [q(src[j]) for j in dofs], zero(len(dofs)))
-        return ("vec", [q(st["it0"][j]) for j in dofs],
+        cur = ctx.get("cur") or st["it0"]     # the state being evaluated (explicit or iterate 0)
+        return ("vec", [q(cur[j]) for j in dofs],
                 [[q(1) if c == j else q(0) for c in range(N)] for j in dofs])
     if k == "tdda":
         pos = [p_ for d in s["doms"] for p_ in SRCPOS[d]]
@@ -931,6 +932,12 @@ class C02(Prop):
     def generate(self, rng, n, tier):
         for case in self._generate(rng, n, tier):
             decorate(rng, case["expr"])
+            if rng.random() < 0.4 and case["kind"] not in ("key-error", "shift-conflict"):
+                # EquationSystem.evaluate(op, state=...) with an explicit state that differs
+                # from the stored iterate at every dof; shifted leaves still read the stores
+                it0 = case["state"]["it0"]
+                xs = [float(x) for x in rng.sample(POOL, len(it0))]
+                case["xstate"] = [x if x != y else x + 0.25 for x, y in zip(xs, it0)]
             if case["kind"] in ("md-order", "shift-of-composite") and rng.random() < 0.5:
                 # exact power-of-two scaling of every stored value, tiny to huge
                 k = rng.randint(-10, 10)
@@ -1092,9 +1099,12 @@ class C02(Prop):
 
     # ---------------------------------------------------------------------------------
     @staticmethod
-    def observe(es, op, derivative):
+    def observe(es, op, derivative, xstate=None):
         try:
-            r = es.evaluate(op, derivative=derivative)
+            if xstate is None:
+                r = es.evaluate(op, derivative=derivative)
+            else:       # explicit state vector, different from the stored iterate
+                r = es.evaluate(op, derivative=derivative, state=np.array(xstate, dtype=float))
         except ValueError as e:
             return ["err", "Encountered unknown operation" in str(e)]
         except NotImplementedError:
@@ -1134,13 +1144,14 @@ class C02(Prop):
             return {"built": False, "refused": False, "type": type(op).__name__}
         b.clobber()     # aliasing probe: porepy must not see later writes to arrays handed in
         tree = ser(op, E)
-        with_d = self.observe(E["es"], op, True)
-        without_d = self.observe(E["es"], op, False)
+        with_d = self.observe(E["es"], op, True, case.get("xstate"))
+        without_d = self.observe(E["es"], op, False, case.get("xstate"))
         # aliasing probe on results: overwrite what an evaluation returned, evaluate again
         aliasing = False
         for deriv, first in ((True, with_d), (False, without_d)):
             try:
-                r = E["es"].evaluate(op, derivative=deriv)
+                r = (E["es"].evaluate(op, derivative=deriv) if case.get("xstate") is None else
+                     E["es"].evaluate(op, derivative=deriv, state=np.array(case["xstate"], dtype=float)))
                 if isinstance(r, pp.ad.AdArray):
                     r.val[...] = 977
                     r.jac.data[...] = 977
@@ -1150,10 +1161,10 @@ class C02(Prop):
                     r.data[...] = 977
             except (ValueError, KeyError, NotImplementedError, ZeroDivisionError):
                 pass
-            if self.observe(E["es"], op, deriv) != first:
+            if self.observe(E["es"], op, deriv, case.get("xstate")) != first:
                 aliasing = True
         # direct evaluation on real AdArrays
-        state = np.array(case["state"]["it0"], dtype=float)
+        state = np.array(case.get("xstate") or case["state"]["it0"], dtype=float)
         direct = None
         try:
             d = d_eval(tree, pp.ad.initAdArrays([state])[0], case["state"])
@@ -1179,8 +1190,8 @@ class C02(Prop):
             b.set_state(hist["state"])
             b.clobber()
             res["tree2"] = jsonable(ser(op, E))
-            res["with_d2"] = self.observe(E["es"], op, True)
-            res["without_d2"] = self.observe(E["es"], op, False)
+            res["with_d2"] = self.observe(E["es"], op, True, case.get("xstate"))
+            res["without_d2"] = self.observe(E["es"], op, False, case.get("xstate"))
         return res
 
     @staticmethod
@@ -1217,7 +1228,8 @@ class C02(Prop):
         E = env(case.get("env", 0))
         N = E["N"]
         b = Builder(dict(case, state=state))
-        ctx = {"N": N, "state": state, "blocks": E["blocks"], "sub_order": b.sub_order, "scal": scal}
+        ctx = {"N": N, "state": state, "blocks": E["blocks"], "sub_order": b.sub_order, "scal": scal,
+               "cur": case.get("xstate")}
         try:
             exp = s_eval(case["expr"], ctx)
         except ExpectKeyError:
@@ -1314,12 +1326,13 @@ class C02(Prop):
         terms = self.cshifts(res)
         if res["built"]:
             tree = self._tree_of(case, res)
-            st = cvec(case["state"]["it0"])
+            st = cvec(case.get("xstate") or case["state"]["it0"])
             terms.append(f"agree {ctree(tree)} {st} {self.cstores(case['state'])} "
                          f"{self.cobs(res['with_d'])} {self.cobs(res['without_d'])}")
             if "tree2" in res:      # after the in-place changes of the history
                 st2 = case["history"]["state"]
-                terms.append(f"agree {ctree(unjson(res['tree2']))} {cvec(st2['it0'])} "
+                terms.append(f"agree {ctree(unjson(res['tree2']))} "
+                             f"{cvec(case.get('xstate') or st2['it0'])} "
                              f"{self.cstores(st2)} {self.cobs(res['with_d2'])} "
                              f"{self.cobs(res['without_d2'])}")
         if not terms:
@@ -1330,7 +1343,7 @@ class C02(Prop):
         if not res["built"]:
             return None
         tree = self._tree_of(case, res)
-        st = cvec(case["state"]["it0"])
+        st = cvec(case.get("xstate") or case["state"]["it0"])
         e = f"(mkenv {st} {self.cstores(case['state'])} true)"
         return f"(evaluate {ctree(tree)} {e}, direct {ctree(tree)} {e})"
 
